@@ -3,7 +3,7 @@ leak / slow / time out / produce output), retries with delays, thread counts, ho
 environment, run by the real cargo-nextest built from /repo; with monitors that check properties
 directly on the merged history (nextest's events + the processes' own records + JUnit + exit status).
 Serves C01 C02 C03 C07 C08 C14 C15 C16 C17."""
-import os, random, re, sys, time, xml.etree.ElementTree as ET
+import signal, os, random, re, sys, time, xml.etree.ElementTree as ET
 import vlib, e2e, xxh64
 from e2e import hx
 
@@ -253,6 +253,35 @@ test-group = 'g1'
         sc.env = {}
         sc.timeout_s = 60
         sc.meta = {"tests": tests, "retries": 0, "threads": 2, "heavy": False, "group_m": 4, "group_r": None, "grace": GRACE, "delay_ms": 0, "backoff": "fixed", "run_ignored": "default", "extra": False, "store_s": False, "store_f": True}
+        return sc
+    if k == 14:
+        # fixed scenario (corpus): information requests (SIGUSR1) arrive while a failing test is in the middle of writing its output
+        # (stdout in 6 chunks 150 ms apart, then stderr): the snapshot taken for the answer must not take anything away from what
+        # is captured, shown and stored for the attempt
+        paced = {"kind": "fail", "acts": ["outn:out:140:3000:500:150000:ascii", "outn:err:141:700:100:20000:ascii", "exit:1"],
+                 "out": (140, 3000, "ascii"), "err": (141, 700, "ascii"), "expect": "F"}
+        tests = [{"bin": "t_one", "pkg": "alpha", "name": "paced_output", "ignored": False, "attempts": [paced]},
+                 {"bin": "t_three", "pkg": "beta", "name": "passes", "ignored": False, "attempts": [fixed_attempt("pass", 30, "P")]}]
+        for t in tests: sc.test(t["bin"], t["name"], {"1": t["attempts"][0]["acts"]})
+        sc.config = '''[profile.default]
+retries = 0
+test-threads = 2
+fail-fast = false
+status-level = "all"
+final-status-level = "all"
+failure-output = "never"
+success-output = "never"
+[profile.default.junit]
+path = "@JUNIT@"
+store-success-output = false
+store-failure-output = true
+'''
+        trig = "TestStarted " + test_key(tests[0])
+        sc.signals = [(trig, 1, 250, signal.SIGUSR1), (trig, 1, 550, signal.SIGUSR1), (trig, 1, 820, signal.SIGUSR1)]
+        sc.cli = []
+        sc.env = {}
+        sc.timeout_s = 60
+        sc.meta = {"tests": tests, "retries": 0, "threads": 2, "heavy": False, "group_m": None, "group_r": None, "grace": GRACE, "delay_ms": 0, "backoff": "fixed", "run_ignored": "default", "extra": False, "store_s": False, "store_f": True}
         return sc
     if k == 13:
         # fixed scenario (corpus): a grouped test that asks for `num-test-threads`: its weight is the run's width (4), not the
@@ -943,7 +972,7 @@ if __name__ == "__main__":
             for v in mon(sc, r): print("   ", mon.__name__, v["what"][:300])
 
 
-def check(monitors, seed, tier, n_quick=14, n_thorough=60):
+def check(monitors, seed, tier, n_quick=15, n_thorough=60):
     """Run the family and the given monitors; returns a dict to be merged into a property's result."""
     res, broken = run_family(seed, tier, n_quick, n_thorough)
     violations = []; notes = []
